@@ -68,6 +68,9 @@ type VerifClock struct {
 
 	// NowHook, when set, is called by every Now() before the clock is read (it may block).
 	NowHook atomic.Pointer[func()]
+	// AfterNowHook, when set, is called by every Now() after the clock value has been read and
+	// before it is returned (it may block): the caller then continues with a possibly stale value.
+	AfterNowHook atomic.Pointer[func()]
 
 	NowCalls    atomic.Int64
 	TicksSent   atomic.Int64
@@ -93,8 +96,12 @@ func (c *VerifClock) Now() time.Time {
 		(*h)()
 	}
 	c.mu.Lock()
-	defer c.mu.Unlock()
-	return c.now
+	t := c.now
+	c.mu.Unlock()
+	if h := c.AfterNowHook.Load(); h != nil {
+		(*h)()
+	}
+	return t
 }
 
 func (c *VerifClock) Since(t time.Time) time.Duration { return c.Now().Sub(t) }
